@@ -154,6 +154,11 @@ fn parse_inline_tag(tokens: &[Token]) -> Option<usize> {
             ..
         })
     ) {
+        if cursor >= tokens.len() {
+            // Unterminated tag: there is no closing curly left to find.
+            return None;
+        }
+
         cursor += 1;
     }
 
